@@ -21,6 +21,7 @@ type Case struct {
 	Desc    bool     `json:"desc,omitempty"`   // values descend along precedence
 	Order   []int    `json:"order,omitempty"`  // explicit value ranks per level (thorough)
 	Stage   bool     `json:"stage,omitempty"`  // run as a pipeline stage
+	Nested  bool     `json:"nested,omitempty"` // the pipeline is itself a stage of an outer pipeline
 	SubDir  bool     `json:"subdir,omitempty"` // invoked from a sub-directory
 	Args    []string `json:"args,omitempty"`
 	Via     string   `json:"via,omitempty"`
@@ -29,7 +30,7 @@ type Case struct {
 }
 
 func (c Case) String() string {
-	return fmt.Sprintf("%s levels=%v desc=%v order=%v stage=%v subdir=%v args=%q via=%q k=%d p=%d second=%v", c.Kind, c.Levels, c.Desc, c.Order, c.Stage, c.SubDir, c.Args, c.Via, c.K, c.P, c.Second)
+	return fmt.Sprintf("%s levels=%v desc=%v order=%v stage=%v nested=%v subdir=%v args=%q via=%q k=%d p=%d second=%v", c.Kind, c.Levels, c.Desc, c.Order, c.Stage, c.Nested, c.SubDir, c.Args, c.Via, c.K, c.P, c.Second)
 }
 
 func has(l []int, x int) bool {
@@ -82,6 +83,15 @@ func runTaskctl(dir, cwd string, env []string, args ...string) (runResult, error
 		r.code = ee.ExitCode()
 	}
 	return r, nil
+}
+
+// nest wraps pipeline p1 into an outer pipeline when the case asks for it.
+func nest(c Case, y *strings.Builder, target string) string {
+	if c.Stage && c.Nested {
+		y.WriteString("  outer:\n    - pipeline: p1\n      name: wrap\n      env:\n        X: outer-stage-env\n      variables:\n        v: outer-stage-var\n")
+		return "outer"
+	}
+	return target
 }
 
 func lineWith(out, prefix string) string {
@@ -164,6 +174,7 @@ func envCase(c Case, dir string) string {
 			y.WriteString("      env:\n" + vars(c.Levels, 5, "        "))
 		}
 	}
+	target = nest(c, &y, target)
 	os.WriteFile(filepath.Join(dir, "tasks.yaml"), []byte(y.String()), 0o644)
 	r, err := runTaskctl(dir, dir, env, "--output", "raw", target)
 	if err != nil {
@@ -265,6 +276,7 @@ func dirCase(c Case, dir string) string {
 			y.WriteString("      dir: " + dS + "\n")
 		}
 	}
+	target = nest(c, &y, target)
 	os.WriteFile(filepath.Join(dir, "tasks.yaml"), []byte(y.String()), 0o644)
 	cwd := dir
 	if c.SubDir {
@@ -315,6 +327,7 @@ func varsCase(c Case, dir string) string {
 			y.WriteString("      variables:\n        v: " + c.val(4, "v") + "\n")
 		}
 	}
+	target = nest(c, &y, target)
 	os.WriteFile(filepath.Join(dir, "tasks.yaml"), []byte(y.String()), 0o644)
 	args := []string{"--output", "raw"}
 	if has(c.Levels, 2) {
@@ -783,7 +796,7 @@ func main() {
 			return false
 		}
 		res.Evaluations++
-		distinct[fmt.Sprint(c.Kind, c.Levels, c.Stage, c.Args, c.K, c.P, c.SubDir)] = true
+		distinct[fmt.Sprint(c.Kind, c.Levels, c.Stage, c.Nested, c.Args, c.K, c.P, c.SubDir, c.Via)] = true
 		if res.Evaluations%23 == 1 {
 			res.AddSample(c.String())
 		}
@@ -814,6 +827,9 @@ func main() {
 			for _, s := range subsets(lv) {
 				for _, desc := range []bool{false, true} {
 					if do(Case{Kind: "env", Levels: s, Desc: desc, Stage: stage}) {
+						goto done
+					}
+					if stage && do(Case{Kind: "env", Levels: s, Desc: desc, Stage: true, Nested: true}) {
 						goto done
 					}
 				}
@@ -873,6 +889,9 @@ func main() {
 					if do(Case{Kind: "dir", Levels: s, Stage: stage, SubDir: sub}) {
 						goto done
 					}
+					if stage && do(Case{Kind: "dir", Levels: s, Stage: true, Nested: true, SubDir: sub}) {
+						goto done
+					}
 				}
 			}
 		}
@@ -885,6 +904,9 @@ func main() {
 			for _, s := range subsets(lv) {
 				for _, desc := range []bool{false, true} {
 					if do(Case{Kind: "vars", Levels: s, Desc: desc, Stage: stage}) {
+						goto done
+					}
+					if stage && do(Case{Kind: "vars", Levels: s, Desc: desc, Stage: true, Nested: true}) {
 						goto done
 					}
 				}
